@@ -498,7 +498,7 @@ def standard_check(ctx, plug):
             im = impl[i] if i < len(impl) else "<no output>"
             if not l1_ok(plug, c, im, spec[i]):
                 l1.append(i)
-            if im != model[i]:
+            if model[i] != "=" and im != model[i]:      # "=": this case has no model line (spec only)
                 l2.append(i)
         return l1, l2
 
